@@ -59,8 +59,17 @@ def _entry(name):
     return next(e for e in K.backend_table() if e[0] == name)
 
 
+def _ads_T_ends():
+    """The far ends of "any temperature between its triple and critical point": a few hundredths of a kelvin below the
+    critical temperature / above the lower end of the backend's saturation curve."""
+    tab = K.backend_table()
+    return st.tuples(st.integers(0, len(tab) - 1), st.sampled_from([-0.08, -0.05, -0.02, -0.005, 0.005, 0.05])).map(
+        lambda t: {"adsorbate": tab[t[0]][0], "T": (tab[t[0]][3] + t[1]) if t[1] < 0 else (tab[t[0]][2] + t[1])})
+
+
 def strat_pressure():
-    return st.builds(lambda at, x: dict(at, x=x), _ads_T(), _values)
+    return st.builds(lambda at, x: dict(at, x=x),
+                     st.sampled_from([0, 0, 0, 0, 1]).flatmap(lambda k: _ads_T_ends() if k else _ads_T()), _values)
 
 
 def strat_loading():
